@@ -746,7 +746,7 @@ func (sl *SignalLayout) decodeEnumSignal(enumSig *EnumSignal, rawValue uint64) *
 	sigEnum := enumSig.enum
 
 	for _, enumVal := range sigEnum.values.entries() {
-		if enumVal.index == int(rawValue) {
+		if enumVal.index >= 0 && uint64(enumVal.index) == rawValue {
 			res.Value = enumVal.name
 			break
 		}
